@@ -326,15 +326,16 @@ Step(r) ==
 HNext == Len(hist) < PLen + Depth /\ \E r \in AllRequests : Step(r)
 HSpec == HInit /\ [][HNext]_hvars
 
-\* simulation: one random representative per weighted class (valid edits three times as likely than invalid or
-\* neutral edits, reads, malformed requests / whole-graph posts)
+\* simulation: one random representative per weighted class (valid edits three times as likely as invalid or
+\* neutral edits, reads, malformed requests, fetching / re-posting the whole graph)
 SimNext ==
     /\ Len(hist) < PLen + Depth
     /\ LET P == EditPool
            V == {r \in P : Class(g, r) = "valid"}
            F == MethodFlaws(V, P) \cup BodyFlaws(V, P) \cup PutPool
-       IN \E cls \in 1..6 :
-             LET S == CASE cls \in {1, 2, 3} -> V [] cls = 4 -> P \ V [] cls = 5 -> ReadPool [] OTHER -> F
+       IN \E cls \in 1..7 :
+             LET S == CASE cls \in {1, 2, 3} -> V [] cls = 4 -> P \ V [] cls = 5 -> ReadPool [] cls = 6 -> F
+                        [] OTHER -> PutPool \cup {Rq("getgraph", 0, 0, 0)}
              IN S # {} /\ Step(RandomElement(S))
 SimSpec == HInit /\ [][SimNext]_hvars
 
@@ -346,6 +347,13 @@ SandwichNext ==
     \/ /\ Len(hist) = PLen + 1 /\ \E r \in ValidEdits \cup PutPool : Step(r)
     \/ /\ Len(hist) = PLen + 2 /\ Step(hist[PLen + 1])
 SandwichSpec == HInit /\ [][SandwichNext]_hvars
+\* edit - revert - read: one valid edit, POST /graph of the graph fetched before it, GET /graph: application and
+\* autosaved file must both be back at the prelude graph
+RevertNext ==
+    \/ /\ Len(hist) = PLen /\ \E r \in ValidEdits : Step(r)
+    \/ /\ Len(hist) = PLen + 1 /\ Step(Rq("putgraph", 0, 0, 0))
+    \/ /\ Len(hist) = PLen + 2 /\ Step(Rq("getgraph", 0, 0, 0))
+RevertSpec == HInit /\ [][RevertNext]_hvars
 EmitSandwich == Len(hist) < PLen + 3 \/ PrintT(ToJson([steps |-> hist]))
 ViewSandwich == <<g, snap, hist>>
 
